@@ -852,7 +852,7 @@ impl Callbacks for Cb {
                     let sm = tcx.sess.source_map();
                     let lo = sm.lookup_char_pos(sp.lo());
                     let ty = tcx.type_of(did).instantiate_identity().skip_norm_wip();
-                    let snippet = sm.span_to_snippet(tcx.hir_span(tcx.local_def_id_to_hir_id(id.owner_id.def_id))).unwrap_or_default();
+                    let snippet = sm.span_to_snippet(tcx.hir_span_with_body(tcx.local_def_id_to_hir_id(id.owner_id.def_id))).unwrap_or_default();
                     let _ = write!(
                         out,
                         "{{\"k\":\"const\",\"id\":{},\"crate\":{},\"ty\":{},\"file\":{},\"line\":{},\"src\":{}}}\n",
